@@ -613,11 +613,17 @@ func (r *run) checkState(st vlib.State, op string, keys []string) *stepError {
 		}
 		for _, req := range []*propertyv1.QueryRequest{asc, desc} {
 			bad := false
+			// as the real Query does: the per-replica result sets of the ORDERED request carry the sort values the
+			// merge works with (the order-by tag t1 holds the revision, so it differs between revisions of one key)
+			npo, oerr := r.c.vps.QueryProperties(ctx, req)
+			if oerr != nil {
+				return &stepError{"harness-error", "queryProperties(ordered): " + oerr.Error()}
+			}
 			for i := 0; i < n && !bad; i++ {
 				r.res.Inc("dedup_calls_compared")
-				if g := r.dedupString(r.c.vps.SortedQueryWithDedup(np, req)); g != wantD {
+				if g := r.dedupString(r.c.vps.SortedQueryWithDedup(npo, req)); g != wantD {
 					bad, orderDependent = true, true
-					r.violate("dedup-sorted", fmt.Sprintf("sortedQueryWithDedup(%s, %s) call %d = [%s], expected [%s]; per-replica results %s", k, req.OrderBy.Sort, i+1, g, wantD, r.nodeResults(np)))
+					r.violate("dedup-sorted", fmt.Sprintf("sortedQueryWithDedup(%s, %s) call %d = [%s], expected [%s]; per-replica results %s", k, req.OrderBy.Sort, i+1, g, wantD, r.nodeResults(npo)))
 				}
 			}
 			if bad {
@@ -630,8 +636,14 @@ func (r *run) checkState(st vlib.State, op string, keys []string) *stepError {
 		if orderDependent {
 			qn = n
 		}
-		for i := 0; i < qn; i++ {
-			resp, err := r.c.svc.Query(ctx, r.queryReq(k))
+		for i := 0; i < 3*qn; i++ {
+			qreq := r.queryReq(k)
+			if i >= qn && i < 2*qn {
+				qreq = asc
+			} else if i >= 2*qn {
+				qreq = desc
+			}
+			resp, err := r.c.svc.Query(ctx, qreq)
 			if err != nil {
 				return &stepError{"harness-error", "Query: " + err.Error()}
 			}
